@@ -986,3 +986,52 @@ VARIANTS['C18'] += [
       [('dashlive/mpeg/dash/validator/representation.py', "            if seg.seg_num is None:\n                next_seg_num = None\n            else:\n                next_seg_num = seg.seg_num + 1\n",
         "            next_seg_num = None if seg.seg_num is None else seg.seg_num + 1\n")], None),
 ]
+
+VARIANTS['C04'] += [
+    V('_invalidate skips a falsy cache (an empty cached payload survives an edit)',
+      [(MP4F, "        if self._encoded is not None:\n            self._encoded = None\n            if self.parent:\n                self.parent._invalidate()\n",
+        "        if self._encoded:\n            self._encoded = None\n            if self.parent:\n                self.parent._invalidate()\n")],
+      'R04.3', 'Mp4Atom._invalidate'),
+    V('_invalidate clears without telling the parent',
+      [(MP4F, "            self._encoded = None\n            if self.parent:\n                self.parent._invalidate()\n", "            self._encoded = None\n")],
+      'R04.3', 'Mp4Atom._invalidate'),
+    V('neutral: _invalidate as an early return with the parent in a local',
+      [(MP4F, "        if self._encoded is not None:\n            self._encoded = None\n            if self.parent:\n                self.parent._invalidate()\n",
+        "        if self._encoded is None:\n            return\n        self._encoded = None\n        parent = self.parent\n        if parent is not None:\n            parent._invalidate()\n")],
+      None),
+]
+
+CONTF = 'dashlive/server/options/container.py'
+VARIANTS['C07'] += [
+    V('clone rebuilds a group container only when it is overridden',
+      [(CONTF, "            if isinstance(value, OptionsContainer) or isinstance(ours, OptionsContainer):\n                if ours is None:",
+        "            if key in kwargs and (isinstance(value, OptionsContainer) or isinstance(ours, OptionsContainer)):\n                if ours is None:")],
+      'R07.6', 'OptionsContainer.clone'),
+    V('neutral: clone tests the group container through renamed locals',
+      [(CONTF, "            ours = getattr(self, key)\n            value = kwargs.get(key, ours)\n            if isinstance(value, OptionsContainer) or isinstance(ours, OptionsContainer):\n                if ours is None:\n                    ours = {}\n                elif isinstance(ours, OptionsContainer):\n                    ours = ours.toJSON()",
+        "            current = getattr(self, key)\n            value = kwargs.get(key, current)\n            is_group = isinstance(current, OptionsContainer) or isinstance(value, OptionsContainer)\n            if is_group:\n                ours = {}\n                if isinstance(current, OptionsContainer):\n                    ours = current.toJSON()\n                elif current is not None:\n                    ours = current")],
+      None),
+]
+
+VARIANTS['C08'] += [
+    V('start=year backs off in the first minute of every day',
+      [('dashlive/mpeg/dash/timing.py', "                month=1, day=1, hour=0, minute=0, second=0, microsecond=0)\n            if (self.publishTime - self.availabilityStartTime) < one_day:",
+        "                month=1, day=1, hour=0, minute=0, second=0, microsecond=0)\n            if self.publishTime.hour == 0 and self.publishTime.minute == 0:")],
+      'R08.9', 'calculate_live_params'),
+    V('neutral: start=year back-off measured through a local',
+      [('dashlive/mpeg/dash/timing.py', "                month=1, day=1, hour=0, minute=0, second=0, microsecond=0)\n            if (self.publishTime - self.availabilityStartTime) < one_day:",
+        "                month=1, day=1, hour=0, minute=0, second=0, microsecond=0)\n            since_new_year = self.publishTime - self.availabilityStartTime\n            if since_new_year < one_day:")],
+      None),
+]
+
+PRF = 'dashlive/drm/playready.py'
+VARIANTS['C10'] += [
+    V('PlayReady pssh lists byte-reversed key ids',
+      [(PRF, "        keys = [KeyMaterial(k).raw for k in keys]\n        return mp4.ContentProtectionSpecificBox(\n            version=1,",
+        "        keys = [KeyMaterial(k).raw[::-1] for k in keys]\n        return mp4.ContentProtectionSpecificBox(\n            version=1,")],
+      'R10.7', 'generate_pssh'),
+    V('neutral: PlayReady pssh key ids from the key tuples',
+      [(PRF, "        if isinstance(keys, dict):\n            keys = list(keys.keys())\n        keys = [KeyMaterial(k).raw for k in keys]\n        return mp4.ContentProtectionSpecificBox(\n            version=1, flags=0, system_id=PlayReady.RAW_SYSTEM_ID,\n            key_ids=keys, data=pro)",
+        "        if isinstance(keys, dict):\n            keys = list(keys.keys())\n        raw_kids = [KeyMaterial(kid).raw for kid in keys]\n        return mp4.ContentProtectionSpecificBox(\n            version=1, flags=0, system_id=PlayReady.RAW_SYSTEM_ID,\n            key_ids=raw_kids, data=pro)")],
+      None),
+]
